@@ -29,6 +29,9 @@ PROPS_MODULES = ['RTV.Props.C05']
 GEN = ['chartables']
 REQUIRED_THEOREMS = ['unitmap_lookup', 'unitmap_listed', 'key_assembly_suffix', 'key_assembly_prefix',
                      'parse_suffix_unit', 'compound_value_exact',
+                     # the value side (RTV.Unit.parseFull)
+                     'parseFull_unit', 'parse_value_is_number_resolution', 'parse_half_adds_point_five',
+                     'parse_half_concatenates_witness', 'extract_then_parse_value',
                      # the extractor (RTV.Model.UnitExtract)
                      'nwu_longest_suffix_wins', 'nwu_furthest_reach_partial', 'nwu_furthest_reach_counterexample',
                      'nwu_suffix_span', 'nwu_prefix_span', 'nwu_result_text_is_slice', 'nwu_result_text_is_slice_full',
